@@ -163,6 +163,8 @@ def pattern_chars(toks, acc=None):
 ATOMS = (
     ('lit', 'a'), ('lit', 'b'), ('lit', '.'), ('star',), ('q',),
     ('set', False, (('c', 'a'),)), ('set', True, (('c', 'a'),)),
+    # a range that spans `.` without writing it, and a POSIX class that contains it
+    ('set', False, (('r', '+', '9'),)), ('set', False, (('p', 'punct'),)),
 )
 ALTS = (
     (('lit', 'a'),), (('lit', 'b'),), (('q',),), (('star',),), (('lit', '.'),),
@@ -205,7 +207,11 @@ def rand_set(rng, alpha):
         if r < 0.55:
             items.append(('c', rng.choice(alpha)))
         elif r < 0.8:
-            lo, hi = sorted((rng.choice('abcdxyzABCXYZ0159'), rng.choice('abcdxyzABCXYZ0159')))
+            if rng.random() < 0.3:
+                # ranges over punctuation: they may span `.`, `/`, `-` ... without writing them
+                lo, hi = sorted((rng.choice(' !#%+,'), rng.choice('09:@az~')))
+            else:
+                lo, hi = sorted((rng.choice('abcdxyzABCXYZ0159'), rng.choice('abcdxyzABCXYZ0159')))
             items.append(('r', lo, hi))
         else:
             items.append(('p', rng.choice(POSIX_NAMES)))
